@@ -115,7 +115,11 @@ type gPop struct {
 }
 
 func gNewPop(c *Ctx) *gPop {
-	return &gPop{rows: map[int]*gRow{}, nParts: 1 + c.intn(4)}
+	n := 1 + c.intn(3)
+	if c.chance(0.2) {
+		n = 4 + c.intn(3)
+	}
+	return &gPop{rows: map[int]*gRow{}, nParts: n}
 }
 
 // writeFiles runs one writer engine over the stores: nFiles flushes, each with
